@@ -207,6 +207,52 @@ Proof.
   unfold ops in *. rewrite H1 in A. cbn [fst snd] in A. exact A.
 Qed.
 
+(** * concurrent Removes of one key: exactly one succeeds, the others report
+      not-found, and the key is gone *)
+
+Theorem mem_remove_once bprog m0 cfg k e :
+  mreachable (minit (mem_prog bprog) m0) cfg -> nodupk m0 ->
+  (forall i, forallb bop_okb (bprog i) = true) ->
+  (forall i, Forall (remove_or_other k) (bprog i)) ->
+  @lookup entry k m0 = Some e -> mem_quiet cfg ->
+  exists ops,
+    mcalls (mdone cfg) = map mem_call ops /\
+    match key_ops k ops with
+    | [] => lookup k (msh cfg) = Some e
+    | _ :: rest =>
+        lookup k (msh cfg) = None /\
+        key_results k ops (mresults (mdone cfg)) = RUnit :: repeat (RErr ENotFound) (length rest)
+    end.
+Proof.
+  intros Hr Hn Hok Hp Hl Hq.
+  destruct (mem_atomic_spec bprog m0 cfg Hr Hn Hok) as (ops & H0 & H1 & H2 & H3).
+  destruct (H3 Hq) as [Hnd Habs].
+  exists ops. split; [exact H1|].
+  assert (lookup k (abs m0) = Some e) as Hl' by (now rewrite lookup_abs).
+  pose proof (seq_remove_once k ops (abs m0) e (forall_in_prog bprog ops Hp H0) Hl') as A.
+  rewrite <- Habs, H2 in A. rewrite lookup_abs in A by exact Hnd. exact A.
+Qed.
+
+Theorem sql_remove_once bprog db0 cfg k e :
+  qreachable D (qinit bprog db0) cfg -> nodupk db0 ->
+  (forall i, forallb bop_okb (bprog i) = true) ->
+  (forall i, Forall (remove_or_other k) (bprog i)) ->
+  @lookup entry k db0 = Some e ->
+  let ops := qops (applied (qdone cfg)) in
+  match key_ops k ops with
+  | [] => lookup k (abs (qdb cfg)) = Some e
+  | _ :: rest =>
+      lookup k (abs (qdb cfg)) = None /\
+      key_results k ops (qresults (applied (qdone cfg))) = RUnit :: repeat (RErr ENotFound) (length rest)
+  end.
+Proof.
+  intros Hr Hn Hok Hp Hl ops.
+  destruct (sql_serializable_spec bprog db0 cfg Hr Hn Hok) as [H0 H1].
+  assert (lookup k (abs db0) = Some e) as Hl' by (now rewrite lookup_abs).
+  pose proof (seq_remove_once k ops (abs db0) e (forall_in_prog bprog ops Hp H0) Hl') as A.
+  unfold ops in *. rewrite H1 in A. cbn [fst snd] in A. exact A.
+Qed.
+
 (** * Emplace keeps the first value *)
 
 Theorem mem_emplace_keeps_first bprog m0 cfg k :
